@@ -1,5 +1,6 @@
 import CoxeterVerif.Lemmas.Inside2DParity
 import CoxeterVerif.Lemmas.Inside2DFrame
+import CoxeterVerif.Lemmas.Inside2DCurved
 /-!
   # C06 — 2-D point containment equals exact membership
 
@@ -404,27 +405,51 @@ theorem iscloseZero_iff (z : ℝ) : iscloseZero z = true ↔ |z| ≤ 1 / 1000000
   norm_num
 
 /-- **C06, circle.** For an in-plane point (`z` equal to the centre's `z`) and a non-negative
-radius, `Circle.is_inside` is exactly membership in the closed disk. -/
+radius, `Circle.is_inside` is exactly membership in the closed disk.  (Since /repo bab419e the
+out-of-plane switch is `isclose(z, 0, atol = 1e-8·r)`; for `dz = 0` it is passed iff `0 ≤ r`.) -/
 theorem circle_inside_iff (r : ℝ) (c p : V3 ℝ) (hr : 0 ≤ r) (hz : p.z = c.z) :
     Circle.isInside1 r c p = inDisk r ⟨c.x, c.y⟩ ⟨p.x, p.y⟩ := by
-  rw [Bool.eq_iff_iff]
-  unfold Circle.isInside1 inDisk
-  simp only [Bool.and_eq_true, decide_eq_true_eq, iscloseZero_iff, V3.sub_z, hz, sub_self, abs_zero]
+  rw [Bool.eq_iff_iff, circle_window]
+  unfold inDisk
+  simp only [decide_eq_true_eq, hz, sub_self, abs_zero]
   unfold V3.norm V3.normSq V3.dot
   simp only [V3.sub_x, V3.sub_y, V3.sub_z, hz, sub_self, mul_zero, add_zero, Scalar.sqrt_real, Scalar.sqr]
   rw [Real.sqrt_le_left hr]
   constructor
   · rintro ⟨h, _⟩; linarith
-  · intro h; exact ⟨by linarith, by norm_num⟩
+  · intro h; exact ⟨by linarith, by positivity⟩
 
-/-- a point further than `1e-8` from the circle's plane is never inside -/
-theorem circle_out_of_plane (r : ℝ) (c p : V3 ℝ) (hz : 1 / 100000000 < |p.z - c.z|) :
+/-- inside the window `|dz| ≤ r / 10⁸` (relative to the circle) the answer is "the 3-D distance
+    from the centre is at most `r`" -/
+theorem circle_in_window (r : ℝ) (c p : V3 ℝ) (hz : |p.z - c.z| ≤ r / 100000000) :
+    Circle.isInside1 r c p = decide (V3.norm (p - c) ≤ r) := by
+  rw [Bool.eq_iff_iff, circle_window, decide_eq_true_eq]
+  exact ⟨fun h => h.1, fun h => ⟨h, hz⟩⟩
+
+/-- a point further than `r / 10⁸` from the circle's plane is never inside -/
+theorem circle_out_of_plane (r : ℝ) (c p : V3 ℝ) (hz : r / 100000000 < |p.z - c.z|) :
     Circle.isInside1 r c p = false := by
-  unfold Circle.isInside1
-  have : iscloseZero (p.z - c.z) = false := by
-    rw [Bool.eq_false_iff, Ne, iscloseZero_iff]; exact not_le.mpr hz
-  simp only [V3.sub_z]
-  rw [this, Bool.and_false]
+  rw [Bool.eq_false_iff, Ne, circle_window]
+  rintro ⟨_, h⟩; linarith
+
+/-- **Scale covariance** (the reason of the repair bab419e): radius, centre and point scaled by
+    `k > 0` give the same answer, for every point of space -/
+theorem circle_scale {k : ℝ} (hk : 0 < k) (r : ℝ) (c p : V3 ℝ) :
+    Circle.isInside1 (k * r) (V3.smul k c) (V3.smul k p) = Circle.isInside1 r c p :=
+  circle_isInside1_scale hk r c p
+
+/-- the out-of-plane offset `2e-9` of a circle of radius `1/1000` is outside the relative window
+    (the code before bab419e accepted it: absolute window `1e-8`), and `2e-6` of radius `1000` is
+    inside (it was rejected) -/
+example : Circle.isInside1 (1/1000 : ℝ) ⟨0, 0, 0⟩ ⟨0, 0, 2/1000000000⟩ = false ∧
+    Circle.isInside1 (1000 : ℝ) ⟨0, 0, 0⟩ ⟨0, 0, 2/1000000⟩ = true := by
+  constructor
+  · exact circle_out_of_plane _ _ _ (by norm_num)
+  · rw [circle_window]
+    refine ⟨?_, by norm_num⟩
+    unfold V3.norm V3.normSq V3.dot
+    simp only [V3.sub_x, V3.sub_y, V3.sub_z, Scalar.sqrt_real]
+    rw [Real.sqrt_le_left (by norm_num)]; norm_num
 
 example : Circle.isInside1 (2 : ℝ) ⟨1, -1, 3⟩ ⟨-1/2, -2, 3⟩ = inDisk (2 : ℝ) ⟨1, -1⟩ ⟨-1/2, -2⟩ :=
   circle_inside_iff 2 ⟨1, -1, 3⟩ ⟨-1/2, -2, 3⟩ (by norm_num) rfl
@@ -437,13 +462,22 @@ theorem circle_batch (r : ℝ) (c : V3 ℝ) (pts : List (V3 ℝ)) :
 /-- what `Ellipse.is_inside` computes: the quarter-plane `x − cx ≤ a ∧ y − cy ≤ b` -/
 theorem ellipse_inside_is_box (a b : ℝ) (c p : V3 ℝ) (ha : 0 < a) (hb : 0 < b) (hz : p.z = c.z) :
     Ellipse.isInside1 a b c p = true ↔ (p.x - c.x ≤ a ∧ p.y - c.y ≤ b) := by
-  unfold Ellipse.isInside1
-  simp only [Bool.and_eq_true, decide_eq_true_eq, iscloseZero_iff, V3.sub_x, V3.sub_y, V3.sub_z, hz,
-    sub_self, abs_zero, Scalar.lit, Scalar.ofNat_real, Nat.cast_one, Bool.and_true, div_le_one ha,
-    div_le_one hb]
+  rw [ellipse_window, hz, sub_self, abs_zero, div_le_one ha, div_le_one hb]
+  have : (0 : ℝ) ≤ Max.max a b / 100000000 := by
+    have := le_max_left a b
+    positivity
   constructor
-  · rintro ⟨h, _⟩; exact h
-  · intro h; exact ⟨h, by norm_num⟩
+  · rintro ⟨h1, h2, _⟩; exact ⟨h1, h2⟩
+  · rintro ⟨h1, h2⟩; exact ⟨h1, h2, this⟩
+
+/-- … and the same inside the whole out-of-plane window `|dz| ≤ max(a, b) / 10⁸` -/
+theorem ellipse_in_window (a b : ℝ) (c p : V3 ℝ) (ha : 0 < a) (hb : 0 < b)
+    (hz : |p.z - c.z| ≤ Max.max a b / 100000000) :
+    Ellipse.isInside1 a b c p = true ↔ (p.x - c.x ≤ a ∧ p.y - c.y ≤ b) := by
+  rw [ellipse_window, div_le_one ha, div_le_one hb]
+  constructor
+  · rintro ⟨h1, h2, _⟩; exact ⟨h1, h2⟩
+  · rintro ⟨h1, h2⟩; exact ⟨h1, h2, hz⟩
 
 /-- **C06, ellipse, the half that holds:** every point of the ellipse is accepted
 (the box contains the ellipse).  The converse is false — `ellipse_inside_fails`. -/
@@ -856,29 +890,41 @@ theorem ellipse_arg_N3 (a b : ℝ) (c : V3 ℝ) (rows : List (List ℝ)) :
       .ok (rows.map fun row => Ellipse.isInside1 a b c (Polygon.rowV3 row)) := by
   unfold Ellipse.isInsideArg Ellipse.isInside; simp only [if_true, List.map_map]; rfl
 
-/-- a point further than `1e-8` from the ellipse's plane is never inside, and within the plane
-    the centre enters only through `p − c` (`ellipse_inside_is_box`) -/
-theorem ellipse_out_of_plane (a b : ℝ) (c p : V3 ℝ) (hz : 1 / 100000000 < |p.z - c.z|) :
+/-- a point further than `max(a, b) / 10⁸` from the ellipse's plane is never inside, and within
+    the window the centre enters only through `p − c` (`ellipse_in_window`) -/
+theorem ellipse_out_of_plane (a b : ℝ) (c p : V3 ℝ) (hz : Max.max a b / 100000000 < |p.z - c.z|) :
     Ellipse.isInside1 a b c p = false := by
-  unfold Ellipse.isInside1
-  have : iscloseZero (p.z - c.z) = false := by
-    rw [Bool.eq_false_iff, Ne, iscloseZero_iff]; exact not_le.mpr hz
-  simp only [V3.sub_z]
-  rw [this, Bool.and_false]
+  rw [Bool.eq_false_iff, Ne, ellipse_window]
+  rintro ⟨_, _, h⟩; linarith
 
 /-- translation covariance of the coded ellipse test (centre handling): moving centre and point
     together changes nothing -/
 theorem ellipse_translate (a b : ℝ) (c p t : V3 ℝ) :
-    Ellipse.isInside1 a b (c + t) (p + t) = Ellipse.isInside1 a b c p := by
-  unfold Ellipse.isInside1
-  simp only [V3.sub_x, V3.sub_y, V3.sub_z, V3.add_x, V3.add_y, V3.add_z, add_sub_add_right_eq_sub]
-  rfl
+    Ellipse.isInside1 a b (c + t) (p + t) = Ellipse.isInside1 a b c p :=
+  ellipse_isInside1_translate a b c p t
 
 theorem circle_translate (r : ℝ) (c p t : V3 ℝ) :
-    Circle.isInside1 r c (p + t) = Circle.isInside1 r (c - t) p := by
-  unfold Circle.isInside1
-  have e : p + t - c = p - (c - t) := by ext <;> simp <;> ring
-  rw [e]
+    Circle.isInside1 r (c + t) (p + t) = Circle.isInside1 r c p :=
+  circle_isInside1_translate r c p t
+
+/-- **Scale covariance of `Ellipse.is_inside`** (box test and out-of-plane switch): semi-axes,
+    centre and point scaled by `k > 0` give the same answer, for every point of space -/
+theorem ellipse_scale {k : ℝ} (hk : 0 < k) (a b : ℝ) (c p : V3 ℝ) :
+    Ellipse.isInside1 (k * a) (k * b) (V3.smul k c) (V3.smul k p) = Ellipse.isInside1 a b c p :=
+  ellipse_isInside1_scale hk a b c p
+
+/-- batches inherit both covariances -/
+theorem circle_batch_scale {k : ℝ} (hk : 0 < k) (r : ℝ) (c : V3 ℝ) (pts : List (V3 ℝ)) :
+    Circle.isInside (k * r) (V3.smul k c) (pts.map (V3.smul k)) = Circle.isInside r c pts := by
+  unfold Circle.isInside
+  rw [List.map_map]
+  exact List.map_congr_left fun p _ => circle_isInside1_scale hk r c p
+
+theorem ellipse_batch_scale {k : ℝ} (hk : 0 < k) (a b : ℝ) (c : V3 ℝ) (pts : List (V3 ℝ)) :
+    Ellipse.isInside (k * a) (k * b) (V3.smul k c) (pts.map (V3.smul k)) = Ellipse.isInside a b c pts := by
+  unfold Ellipse.isInside
+  rw [List.map_map]
+  exact List.map_congr_left fun p _ => ellipse_isInside1_scale hk a b c p
 
 /-! ### points exactly on the boundary (tie rule of the model; the property is silent there) -/
 
